@@ -108,7 +108,11 @@ def differential(chk, programs, configs_for, key_for=None, nontrivial=None, work
         if any(o[1].values()):
             stats["nonempty_outputs"] += 1
         stats["max_rounds"] = max([stats["max_rounds"]] + o[2])
+        seen_names = set()
         for cfg in configs_for(p):
+            if cfg.name in seen_names:      # two random subsets can coincide; one run (and one output directory) per name
+                continue
+            seen_names.add(cfg.name)
             jobs.append((i, cfg))
 
     def one(job):
@@ -187,11 +191,11 @@ PIPE_TB = ["Coq 8.16.1 kernel; Print Assumptions of every theorem of the propert
 
 
 def standard_check(pid, level, tier, seed, configs_for, n_quick, n_thorough, features_fn, rule, proof=True,
-                   nontrivial=None, key_for=None, post=None, workers=None, size=1.0, extra_tb=(), mutate=None):
+                   nontrivial=None, key_for=None, post=None, workers=None, size=1.0, extra_tb=(), mutate=None, proof_pid=None):
     chk = C.Check(pid, level, tier, seed)
     C.build_souffle()
     if proof:
-        chk.proof_stage()
+        chk.proof_stage(proof_pid)
     n = n_quick if tier == "quick" else n_thorough
     progs = gen_programs(chk.rng.fork(pid), n, features_fn, size)
     if mutate:
